@@ -211,7 +211,7 @@ class Loader(yaml.SafeLoader):
                 node = self.__savorize(node, recognized_type)
             except SeasoningError as e:
                 raise RecognitionError(
-                        '{}\n{}'.format(node.start_mark, e.args[0]))
+                        '{}\n{}'.format(node.start_mark, e))
         logger.debug('Savorized, now {}'.format(node))
 
         # process subnodes
@@ -249,7 +249,7 @@ class Loader(yaml.SafeLoader):
                         except SeasoningError as e:
                             raise RecognitionError(
                                     '{}\n{}'.format(
-                                        node.start_mark, e.args[0]))
+                                        node.start_mark, e))
                         new_subnode = self.__process_node(
                             subnode.yaml_node, type_)
                         cnode.set_attribute(attr_name, new_subnode)
